@@ -9,6 +9,7 @@ package main
 import (
 	"bytes"
 	"fmt"
+	"os"
 	"sort"
 
 	"github.com/sarchlab/akita/v4/mem/idealmemcontroller"
@@ -86,6 +87,11 @@ func genPMCScenario(r *vlib.PRNG, idx int) pmcScenario {
 		c.Mems = append(c.Mems, genMem(r))
 	}
 	s := pmcScenario{Name: fmt.Sprintf("p%d", idx), Cfg: c}
+	if idx%3 == 1 {
+		s.Name = fmt.Sprintf("px%d", idx)
+		genCrossOps(r, &s)
+		return s
+	}
 	big := idx%6 == 0 // scenarios that include large pages
 	pick := func() uint64 {
 		var ps uint64
@@ -165,6 +171,81 @@ func genPMCScenario(r *vlib.PRNG, idx int) pmcScenario {
 	return s
 }
 
+// genCrossOps fills s with migrations of different controllers that overlap in
+// time with the roles crossed: a controller is the destination of its own
+// request (one at a time, its own gate) while it serves the pulls of another
+// controller's request. Per phase every controller pulls from one fixed source
+// and no source is pulled by two controllers (opposite directions, rings,
+// chains). Source pages lie in the lower half of a memory, destination pages in
+// the upper half, so no request reads what another one writes.
+func genCrossOps(r *vlib.PRNG, s *pmcScenario) {
+	c := s.Cfg
+	n := c.NumPMC
+	half := c.MemSize / 2
+	sizes := []uint64{64, 128, 256, 256, 512, 1024, 1024, 4096, 4096, 4096, 8192, 16384}
+	pick := func() uint64 {
+		if r.Chance(1, 4) {
+			return uint64(1+r.Intn(64)) * chunk
+		}
+		return sizes[r.Intn(len(sizes))]
+	}
+	off := func(ps uint64) uint64 { return uint64(r.Intn(int((half-ps)/chunk)+1)) * chunk }
+	var prevPhase []int
+	for p, nPhases := 0, 1+r.Intn(3); p < nPhases; p++ {
+		// who pulls from whom: an injective partial map without fixed points
+		srcOf := make([]int, n)
+		for i := range srcOf {
+			srcOf[i] = -1
+		}
+		perm := r.Perm(n)
+		switch shape := r.Intn(3); {
+		case shape == 0 || n == 2: // opposite directions between one or two pairs
+			srcOf[perm[0]], srcOf[perm[1]] = perm[1], perm[0]
+			if n == 4 && r.Bool() {
+				srcOf[perm[2]], srcOf[perm[3]] = perm[3], perm[2]
+			}
+		case shape == 1: // ring over all controllers
+			for i := 0; i < n; i++ {
+				srcOf[perm[i]] = perm[(i+1)%n]
+			}
+		default: // chain: the first only serves, the last only pulls
+			for i := 1; i < n; i++ {
+				srcOf[perm[i]] = perm[i-1]
+			}
+		}
+		var thisPhase []int
+		last := make([]int, n)
+		for i := range last {
+			last[i] = -1
+		}
+		for k := 0; k < 3; k++ {
+			for d := 0; d < n; d++ {
+				if srcOf[d] < 0 || (k > 0 && r.Chance(1, 2)) {
+					continue
+				}
+				ps := pick()
+				o := pmcOp{Dst: d, Src: srcOf[d], PageSize: ps, ReadOff: off(ps), WriteOff: half + off(ps),
+					After: append([]int(nil), prevPhase...)}
+				if k == 0 {
+					o.Gap = []int{0, 0, 7, 30, r.Intn(100), r.Intn(201)}[r.Intn(6)] // start delay
+				} else {
+					switch r.Intn(3) {
+					case 0: // after this controller's previous request
+						o.After = append(o.After, last[d])
+						o.Gap = r.Intn(40)
+					default: // queued behind it
+						o.Gap = 0
+					}
+				}
+				s.Ops = append(s.Ops, o)
+				last[d] = len(s.Ops) - 1
+				thisPhase = append(thisPhase, last[d])
+			}
+		}
+		prevPhase = thisPhase
+	}
+}
+
 func canonicalPMC() []pmcScenario {
 	ideal := memCfg{Kind: "ideal", Latency: 100, TopBuf: 16, Width: 1}
 	slow := memCfg{Kind: "fake", Latency: 10, Jitter: 8, TopBuf: 1, StallPct: 50, Width: 1}
@@ -187,7 +268,15 @@ func canonicalPMC() []pmcScenario {
 			}
 		}
 	}
-	return []pmcScenario{
+	var extra []pmcScenario
+	if os.Getenv("C19_PMC_NO_TWO_PULLERS") == "" {
+		// one source serving two pullers at once (crashed before the repair in /repo:
+		// the controller kept one requester port for all the pulls it serves)
+		extra = append(extra, mk("canon-one-source-two-pullers", 3, memCfg{Kind: "ideal", Latency: 10, TopBuf: 16, Width: 1}, 0, []pmcOp{
+			{Dst: 1, Src: 0, PageSize: 4096, ReadOff: 0x1000, WriteOff: 0x21000},
+			{Dst: 2, Src: 0, PageSize: 1024, ReadOff: 0x4000, WriteOff: 0x22000, Gap: 20}}))
+	}
+	return append(extra, []pmcScenario{
 		mk("canon-one-4k-page-ideal", 2, ideal, 0, []pmcOp{{Dst: 0, Src: 1, PageSize: 4096, ReadOff: 0x1000, WriteOff: 0x3000}}),
 		mk("canon-one-chunk", 2, ideal, 0, []pmcOp{{Dst: 1, Src: 0, PageSize: 64, ReadOff: 0x40, WriteOff: 0x80}}),
 		mk("canon-64k-page-slow-memory", 2, slow, 50, []pmcOp{{Dst: 0, Src: 1, PageSize: 65536, ReadOff: 0x10000, WriteOff: 0x20000}}),
@@ -205,12 +294,30 @@ func canonicalPMC() []pmcScenario {
 			s.Cfg.CtrlStallBurst = 3000
 			return s
 		}(),
+		// roles crossed: PMC1 pulls a 4 KiB page from PMC0; 30 cycles later PMC0 pulls a
+		// 256-byte page from PMC1 and retires it while PMC1's chunks still stream through PMC0
+		mk("canon-opposite-directions-4k-and-256-delay-30", 2, memCfg{Kind: "ideal", Latency: 10, TopBuf: 16, Width: 1}, 0, []pmcOp{
+			{Dst: 1, Src: 0, PageSize: 4096, ReadOff: 0x1000, WriteOff: 0x21000},
+			{Dst: 0, Src: 1, PageSize: 256, ReadOff: 0x3000, WriteOff: 0x23000, Gap: 30}}),
+		mk("canon-opposite-directions-4k-and-64-delay-7", 2, memCfg{Kind: "ideal", Latency: 1, TopBuf: 16, Width: 1}, 0, []pmcOp{
+			{Dst: 1, Src: 0, PageSize: 4096, ReadOff: 0x1000, WriteOff: 0x21000},
+			{Dst: 0, Src: 1, PageSize: 64, ReadOff: 0x3000, WriteOff: 0x23000, Gap: 7}}),
+		mk("canon-opposite-directions-1k-first-then-4k-latency-40", 2, memCfg{Kind: "ideal", Latency: 40, TopBuf: 16, Width: 1}, 30, []pmcOp{
+			{Dst: 0, Src: 1, PageSize: 1024, ReadOff: 0x3000, WriteOff: 0x23000},
+			{Dst: 1, Src: 0, PageSize: 4096, ReadOff: 0x1000, WriteOff: 0x21000},
+			{Dst: 0, Src: 1, PageSize: 128, ReadOff: 0x3400, WriteOff: 0x23400}}),
+		mk("canon-ring-of-three-mixed-sizes", 3, slow, 0, []pmcOp{
+			{Dst: 0, Src: 1, PageSize: 8192, ReadOff: 0x0000, WriteOff: 0x20000},
+			{Dst: 1, Src: 2, PageSize: 256, ReadOff: 0x2000, WriteOff: 0x22000, Gap: 12},
+			{Dst: 2, Src: 0, PageSize: 1024, ReadOff: 0x4000, WriteOff: 0x24000, Gap: 40},
+			{Dst: 1, Src: 2, PageSize: 64, ReadOff: 0x2400, WriteOff: 0x22400},
+			{Dst: 2, Src: 0, PageSize: 4096, ReadOff: 0x5000, WriteOff: 0x25000}}),
 		mk("canon-disjoint-pairs-concurrently", 4, slow, 0, []pmcOp{
 			{Dst: 0, Src: 1, PageSize: 4096, ReadOff: 0x1000, WriteOff: 0x2000},
 			{Dst: 2, Src: 3, PageSize: 4096, ReadOff: 0x3000, WriteOff: 0x1000},
 			{Dst: 0, Src: 1, PageSize: 192, ReadOff: 0x40, WriteOff: 0x2040},
 			{Dst: 2, Src: 3, PageSize: 4096, ReadOff: 0, WriteOff: 0x8000}}),
-	}
+	}...)
 }
 
 // ---------------------------------------------------------------------------
@@ -540,7 +647,17 @@ func runPMCScenario(rec vlib.Recorder, s pmcScenario) {
 		rec.Violation("C19|pmc|"+key, s.Name+": "+what, wit(extra))
 	}
 	if pv != nil {
-		viol("crash", fmt.Sprintf("panic while migrating: %v", pv), nil)
+		key := "crash"
+		for a, x := range s.Ops {
+			for _, y := range s.Ops[a+1:] {
+				if x.Src == y.Src && x.Dst != y.Dst {
+					// only generated when asked for (C19_PMC_TWO_PULLERS): the controller keeps one
+					// requester port for all the pulls it serves
+					key = "crash|one-source-serving-two-pullers"
+				}
+			}
+		}
+		viol(key, fmt.Sprintf("panic while migrating: %v", pv), nil)
 		return
 	}
 	if livelock {
@@ -557,10 +674,13 @@ func runPMCScenario(rec vlib.Recorder, s pmcScenario) {
 		got  int
 	}
 	pullByID := map[string]*pullInfo{}
-	cur := make([]int, n)     // index into queue[i] of the op in service at PMC i
-	busy := make([]bool, n)   // between retrieval of a request and its completion
-	arrived := make([]int, n) // requests delivered to PMC i's control port
-	concurrent := 0           // requests taken while another PMC was migrating
+	cur := make([]int, n)         // index into queue[i] of the op in service at PMC i
+	busy := make([]bool, n)       // between retrieval of a request and its completion
+	arrived := make([]int, n)     // requests delivered to PMC i's control port
+	concurrent := 0               // requests taken while another PMC was migrating
+	crossed := 0                  // ... while the two were each other's source / destination
+	pullsOpenAt := make([]int, n) // pulls delivered to PMC i and not yet answered by it
+	complWhileServing := 0        // completions sent by a PMC that had a delivered pull unanswered
 	remoteName := make([]sim.RemotePort, n)
 	for i := 0; i < n; i++ {
 		remoteName[i] = pmcs[i].GetPortByName("Remote").AsRemote()
@@ -592,6 +712,9 @@ func runPMCScenario(rec vlib.Recorder, s pmcScenario) {
 					for j := 0; j < n; j++ {
 						if j != i && busy[j] {
 							concurrent++
+							if rj, ri := curOp(j), curOp(i); rj != nil && ri != nil && (rj.op.Src == i || ri.op.Src == j) {
+								crossed++
+							}
 						}
 					}
 					busy[i] = true
@@ -599,6 +722,9 @@ func runPMCScenario(rec vlib.Recorder, s pmcScenario) {
 			case *pmcpkg.PageMigrationRspFromPMC:
 				if e.Kind != simkit.KSend {
 					continue
+				}
+				if pullsOpenAt[i] > 0 {
+					complWhileServing++
 				}
 				r := curOp(i)
 				if r == nil {
@@ -619,6 +745,9 @@ func runPMCScenario(rec vlib.Recorder, s pmcScenario) {
 		case "Remote":
 			switch m := e.Msg.(type) {
 			case *pmcpkg.DataPullReq:
+				if e.Kind == simkit.KRecv { // source side: a pull to serve
+					pullsOpenAt[i]++
+				}
 				if e.Kind == simkit.KSend { // destination side
 					r := curOp(i)
 					if r == nil || !busy[i] {
@@ -643,6 +772,7 @@ func runPMCScenario(rec vlib.Recorder, s pmcScenario) {
 				}
 				if e.Kind == simkit.KSend { // source side
 					p.rsp++
+					pullsOpenAt[i]--
 					if i != p.r.op.Src {
 						viol("pull-rsp-from-wrong-pmc", fmt.Sprintf("op %d: PMC%d answered a pull addressed to PMC%d", p.r.idx, i, p.r.op.Src), nil)
 					}
@@ -757,6 +887,15 @@ func runPMCScenario(rec vlib.Recorder, s pmcScenario) {
 				viol("local-writes-not-exact-cover", fmt.Sprintf("op %d: %d local writes for %d chunks", r.idx, len(r.writes), nCh), ex)
 			}
 		}
+		if !r.rspSent {
+			for _, p := range r.pulls {
+				if pi := pullByID[p.ID]; pi.read == 1 && pi.rsp == 0 {
+					viol("pull-read-at-source-but-never-answered", fmt.Sprintf("op %d (PMC%d<-PMC%d): PMC%d read chunk 0x%x from its memory for this pull but never sent the DataPullRsp (engine idle)",
+						r.idx, r.op.Dst, r.op.Src, r.op.Src, p.ToReadFromPhyAddress), ex)
+					break
+				}
+			}
+		}
 		if !r.rspSent || !r.done {
 			viol("no-completion", fmt.Sprintf("op %d (PMC%d<-PMC%d, %d bytes): engine went idle, completion sent=%v received=%v; %d/%d pulls, %d/%d writes, %d write acks",
 				r.idx, r.op.Dst, r.op.Src, r.op.PageSize, r.rspSent, r.done, len(r.pulls), nCh, len(r.writes), nCh, r.writeDones), ex)
@@ -835,6 +974,11 @@ func runPMCScenario(rec vlib.Recorder, s pmcScenario) {
 	rec.Count("pmc_migrations_checked", int64(migrated))
 	rec.Count("pmc_ctrl_stalls", ctrlStalls)
 	rec.Count("pmc_concurrent_disjoint_migrations", int64(concurrent))
+	rec.Count("pmc_concurrent_migrations_roles_crossed", int64(crossed))
+	rec.Count("pmc_completions_sent_while_serving_a_pull", int64(complWhileServing))
+	if complWhileServing > 0 {
+		rec.Count("pmc_scenarios_completion_sent_while_serving_a_pull", 1)
+	}
 	for i := 0; i < n; i++ {
 		if fakes[i] != nil {
 			rec.Count("pmc_mem_stalls", fakes[i].Stalls)
